@@ -40,7 +40,7 @@ func checkC07(p *Prog, r *Report) {
 	for _, name := range []string{"NewParams"} {
 		nSpl += checkSpliceLoops(p, r, pc, p.Fn(name))
 	}
-	r.floor("splices in NewParams", nSpl, 2)
+	r.count("splices in NewParams", nSpl) // no floor: a rewrite without splices is legitimate; detection ability is calibrated by the seeded variants
 
 	// R8b
 	checkPrefixPruning(p, r, pc, np)
